@@ -62,7 +62,10 @@ func (h *H265Writer) WriteRTP(packet *rtp.Packet) error {
 		h.cachedPacket = &codecs.H265Depacketizer{}
 	}
 
-	data, err := h.cachedPacket.Unmarshal(packet.Payload)
+	// H265Depacketizer keeps the fragments of a fragmented unit as sub-slices of
+	// its argument until the end fragment arrives, so it must not be given memory
+	// the caller is free to reuse once WriteRTP has returned.
+	data, err := h.cachedPacket.Unmarshal(append([]byte(nil), packet.Payload...))
 	if err != nil || len(data) == 0 {
 		return err
 	}
